@@ -3,7 +3,7 @@ from vlib.core import Case
 
 ID = "C10"
 COMPONENTS = ["s_status", "statusfn", "s_rawpeer"]
-T4 = ["MdWire"]
+T4 = ["MdWire", "Timeout"]
 PROOF_MODULES = ["GrpcProofs.Properties.C10"]
 THEOREMS = ["GrpcProofs.C10." + t for t in (
     "status_roundtrip_partial", "status_roundtrip_counterexample_code", "status_roundtrip_counterexample_details",
